@@ -263,6 +263,51 @@ func c10ShareCase(n int, pcts []int) func(w *World) []Violation {
 	}
 }
 
+// c10UnhealthyGroup: the target set a request belongs to has no healthy target; the request is not handed to the
+// other group instead (it is answered 503 by the proxy, which is C09's business; here only the side matters).
+func c10UnhealthyGroup(sick string) func(w *World) []Violation {
+	return func(w *World) []Violation {
+		var vs []Violation
+		host := "u-" + sick + ".example.com"
+		act, roll := "uact-"+sick+":80", "uroll-"+sick+":80"
+		if sick == "rollout" {
+			w.AddTarget(act)
+			w.AddTarget(roll, pOK(), p500())
+		} else {
+			w.AddTarget(act, pOK(), p500())
+			w.AddTarget(roll)
+		}
+		svc := "su" + sick
+		if r := w.Deploy(deployArgs(svc, []string{act}, []string{host}, nil)); r.Err != nil {
+			return []Violation{{"C10", "setup", r.Err.Error()}}
+		}
+		if r := w.RolloutDeploy(svc, []string{roll}); r.Err != nil {
+			return []Violation{{"C10", "setup", r.Err.Error()}}
+		}
+		w.RolloutSet(svc, 0, []string{"v"})
+		time.Sleep(2*vI + 300*time.Millisecond)
+		for _, ck := range []string{"v", ""} {
+			spec := ReqSpec{Host: host, Path: "/", Plan: "chunked"}
+			if ck != "" {
+				spec.Cookie = "kamal-rollout=" + ck
+			}
+			o := w.Do(spec)
+			own, other := act, roll
+			if ck != "" {
+				own, other = roll, act
+			}
+			ownSick := (ck != "") == (sick == "rollout")
+			switch {
+			case o.ServedBy() == other:
+				vs = append(vs, Violation{"C10", "request-handed-to-the-other-group unhealthy-" + sick, fmt.Sprintf("cookie %q belongs to %s (which has %s healthy target) but was served by %s: %s", ck, own, map[bool]string{true: "no", false: "a"}[ownSick], other, o.Summary())})
+			case !ownSick && (o.Status != 200 || o.ServedBy() != own):
+				vs = append(vs, Violation{"C10", "request-not-served-by-its-healthy-group unhealthy-" + sick, fmt.Sprintf("cookie %q: %s", ck, o.Summary())})
+			}
+		}
+		return vs
+	}
+}
+
 func c10Cases(tier string) []ECase {
 	var cases []ECase
 	v1 := c10V1()
@@ -283,6 +328,9 @@ func c10Cases(tier string) []ECase {
 	}
 	cases = append(cases, ECase{Name: "cookie header shapes", Class: "shapes", Run: c10ShapesCase})
 	cases = append(cases, ECase{Name: "redeploys and restart", Class: "redeploy", Run: c10RedeployCase})
+	for _, sick := range []string{"rollout", "active"} {
+		cases = append(cases, ECase{Name: "no healthy target in the " + sick + " group", Class: "unhealthy-group " + sick, Run: c10UnhealthyGroup(sick)})
+	}
 	n := 20000
 	if tier == "thorough" {
 		n = 100000
